@@ -132,6 +132,10 @@ type FuncSpec struct {
 	ID   int64 `json:"id"`
 	Ops  []Op  `json:"ops,omitempty"`
 	Tail *Op   `json:"tail,omitempty"`
+	// AddG > 0: the first result is ID (+ param) + the current value of global AddG-1 (an i32 or
+	// i64 global of the module's index space), so that callers can see the defining instance's
+	// global through the function, even when that instance is otherwise unreachable.
+	AddG int `json:"addg,omitempty"`
 }
 
 type ElemSpec struct {
@@ -472,15 +476,38 @@ func (s *ModSpec) build(nonce string) []byte {
 			m.AddFunc(sigs[f.Sig].P, sigs[f.Sig].R, nil, b.Bytes())
 			continue
 		}
+		addG := func(to64 bool) {
+			if f.AddG <= 0 {
+				return
+			}
+			b.GlobalGet(uint32(f.AddG - 1))
+			g64 := v.gt[f.AddG-1].vt == wasmenc.I64
+			switch {
+			case to64 && !g64:
+				b.Raw(wasmenc.OpI64ExtendI32U)
+			case !to64 && g64:
+				b.Raw(wasmenc.OpI32WrapI64)
+			}
+			if to64 {
+				b.Raw(wasmenc.OpI64Add)
+			} else {
+				b.Raw(wasmenc.OpI32Add)
+			}
+		}
 		switch f.Sig {
 		case 0:
 			b.I32Const(int32(f.ID))
+			addG(false)
 		case 1:
 			b.I32Const(int32(f.ID)).LocalGet(0).Raw(wasmenc.OpI32Add)
+			addG(false)
 		case 2:
 			b.I64Const(f.ID).LocalGet(0).Raw(wasmenc.OpI64Add)
+			addG(true)
 		default:
-			b.I32Const(int32(f.ID)).I64Const(f.ID + 1000)
+			b.I32Const(int32(f.ID))
+			addG(false)
+			b.I64Const(f.ID + 1000)
 		}
 		m.AddFunc(sigs[f.Sig].P, sigs[f.Sig].R, nil, b.Bytes())
 	}
